@@ -1,5 +1,6 @@
 import DFV.JsonField
 import DFV.Model.C04
+import DFV.Model.C04Ext
 namespace DFV.Drv
 open Lean DFV DFV.C04
 
@@ -19,6 +20,17 @@ def c04 (op : String) (j : Json) : Option (R Json) :=
       let order ← natOfJson (← fld j "order")
       let restrict ← boolOfJson (← fld j "restrict")
       pure (resJ fldToJson (diff f ax order restrict))
+  | "field_diff_dir" => some do
+      let f ← fldOfJson (← fld j "field")
+      let dir ← strOfJson (← fld j "dir")
+      let order ← intOfJson (← fld j "order")
+      let restrict ← boolOfJson (← fld j "restrict")
+      pure (resJ fldToJson (diffDirI f dir order restrict))
+  | "diff_kind" => some do
+      let dt ← strOfJson (← fld j "dtype")
+      match Kind.ofString? dt with
+      | some k => pure (Json.mkObj [("ok", .str (resKind k).toString)])
+      | none => pure (errJ .type)
   | _ => none
 
 end DFV.Drv
